@@ -54,7 +54,8 @@ static void printf_input(const std::string &f, Rng &r, bool allow_big) {
 	GuardedBuf gf(z.data(), z.size());
 	case_detail("printf format \"%s\" (%zu slots)", f.c_str(), slots.size());
 	bool huge = false; for(auto &d : P.dirs) if(d.width > 100000 || d.prec > 100000) huge = true;
-	FriggResult fr = run_frigg(gf.data(), slots, huge); // huge widths: the agent expands at most 1000 pad characters
+	FriggResult fr = run_frigg(gf.data(), slots, huge, false); // huge widths: the agent expands at most 1000 pad characters
+	{ FriggResult fr2 = run_frigg(gf.data(), slots, huge, true); count(fr2.panicked ? "printf_lenient_agent_stopped_by_assertion" : "printf_lenient_agent_completed"); } // same input, agent that ignores unknown conversions
 	count(fr.panicked ? "printf_stopped_by_assertion" : fr.agent_error ? "printf_agent_error" : "printf_completed");
 }
 
